@@ -54,7 +54,67 @@ SCENARIOS = [
 ]
 
 
+RAW_MODULE = '''import dds
+def helper():
+    return {h}
+def f(x):
+    return x * 10
+def mid(x):
+    return dds.keep("/nested", f, x)
+def root_keep_arg():
+    return dds.keep("/a", f, helper())
+def root_call_arg():
+    return mid(helper())
+'''
+RAW_RUN = '''import dds, sys, json
+dds.accept_module("rawpk")
+dds.set_store("local", internal_dir=sys.argv[1] + "/i", data_dir=sys.argv[1] + "/d")
+import rawpk.m as m
+out = {{}}
+for name in ("root_keep_arg", "root_call_arg"):
+    fn = getattr(m, name)
+    out[name] = [repr(dds.eval(fn)), repr({{"root_keep_arg": lambda: m.f(m.helper()), "root_call_arg": lambda: m.f(m.helper())}}[name]())]
+print("@@" + json.dumps(out))
+'''
+
+
+def run_raw(rep):
+    """Constructs outside the generated program grammar (hand-written files, no model): a call to an accepted function
+    inside the argument expressions of a keep / of a plain call that leads to a nested keep; the helper is then edited."""
+    import json
+    import os
+    import shutil
+    import tempfile
+    import common as C
+    base = tempfile.mkdtemp(prefix="c01raw_", dir=C.scratch_dir())
+    try:
+        os.makedirs(os.path.join(base, "rawpk"))
+        open(os.path.join(base, "rawpk", "__init__.py"), "w").write("")
+        open(os.path.join(base, "run.py"), "w").write(RAW_RUN.format())
+        outs = []
+        for h in (1, 2):
+            open(os.path.join(base, "rawpk", "m.py"), "w").write(RAW_MODULE.format(h=h))
+            env = C.impl_env()
+            env["PYTHONPATH"] = C.REPO + os.pathsep + base
+            rc, out = C.sh([C.PY, os.path.join(base, "run.py"), base], env=env, cwd=base, timeout=120)
+            line = [l for l in out.splitlines() if l.startswith("@@")]
+            if not line:
+                rep.violation("harness-error:c01raw", "raw scenario could not be run: " + out[-300:], {"out": out[-800:]}, no_input=True)
+                return
+            outs.append(json.loads(line[-1][2:]))
+        for name in ("root_keep_arg", "root_call_arg"):
+            rep.case("targeted:inline-call-in-argument:" + name)
+            got, plain = outs[1][name]
+            if got != plain:
+                rep.violation("stale:inline-call-in-argument", f"{name}: after editing helper() (called inside the argument expression) dds returns {got} "
+                              f"but plain execution gives {plain}", {"scenario": name, "module_v1": RAW_MODULE.format(h=1), "edit": "helper returns 2",
+                                                                      "dds": got, "plain": plain})
+    finally:
+        shutil.rmtree(base, ignore_errors=True)
+
+
 def run(rep, tier, seed, proof_ok):
+    run_raw(rep)
     for name, mk in SCENARIOS:
         events = mk()
         recs = hist.run_history(events)
